@@ -6,6 +6,7 @@ import (
 	"pgregory.net/rapid"
 	"verif/harness/asam"
 	"verif/harness/evid"
+	"verif/harness/iosm"
 )
 
 const ruleC08 = "same generated pairs as C01-C04; every emitted command is executed on the strict model; " +
@@ -19,6 +20,13 @@ func TestC08(t *testing.T) {
 			p := asam.GenPair(rt, asam.GenOpts{})
 			c := asaCase("C08", p)
 			judge(rt, ev, oracleC08asa, c, func() any { return c })
+		})
+	})
+	t.Run("ios", func(t *testing.T) {
+		rapid.Check(t, func(rt *rapid.T) {
+			p := iosm.GenPair(rt, iosm.GenOpts{})
+			c := iosCase("C08", p)
+			judge(rt, ev, oracleC08ios, c, func() any { return c })
 		})
 	})
 }
